@@ -244,6 +244,38 @@ def r03_3(chk):
                      "direction chosen from the sign of the step" if guarded else
                      f"`{text}` orders against start/stop in a fixed direction without testing the sign of self.step: "
                      f"wrong for a range with a negative step", loc(f, node))
+    # __contains__: the four windows (forward/backward × inclusive/exclusive) are the ranges that __iter__ spans
+    f = c.methods["__contains__"]
+    d = f.params()[1]
+
+    def bounds(expr):
+        out = set()
+        for l, op, r in cmp_triples(expr):
+            lt, rt = unparse(l), unparse(r)
+            if lt == d:
+                out.add(("upper" if op in ("<", "<=") else "lower", rt, op in ("<", ">")))
+            elif rt == d:
+                out.add(("lower" if op in ("<", "<=") else "upper", lt, op in ("<", ">")))
+        return out
+    want = {(True, True): {("lower", "self.start", False), ("upper", "self.stop", False)},
+            (True, False): {("lower", "self.start", False), ("upper", "self.stop", True)},
+            (False, True): {("upper", "self.start", False), ("lower", "self.stop", False)},
+            (False, False): {("upper", "self.start", False), ("lower", "self.stop", True)}}
+    top = [s for s in body_without_doc(f.node) if isinstance(s, ast.If)]
+    got = {}
+    if len(top) == 1:
+        tr = cmp_triples(top[0].test)
+        fwd_first = len(tr) == 1 and unparse(tr[0][0]) == "self.step.total_seconds()" and tr[0][1] == ">" and unparse(tr[0][2]) == "0"
+        if fwd_first:
+            for forward, arm in ((True, top[0].body), (False, top[0].orelse)):
+                if len(arm) == 1 and isinstance(arm[0], ast.If) and unparse(arm[0].test) == "self.inclusive":
+                    for inclusive, sub in ((True, arm[0].body), (False, arm[0].orelse)):
+                        if len(sub) == 1 and isinstance(sub[0], ast.Return):
+                            got[(forward, inclusive)] = bounds(sub[0].value)
+    for key, w in want.items():
+        ok = got.get(key) == w
+        chk.inst("R03.3", f"{f.ref}::window::{'forward' if key[0] else 'backward'}-{'inclusive' if key[1] else 'exclusive'}", ok,
+                 "membership window equals the span iterated" if ok else f"window is {sorted(got.get(key, []))}, iteration spans {sorted(w)}", loc(f, f.node))
     # __len__ uses sign-symmetric arithmetic only
     f = c.methods["__len__"]
     txt = unparse(f.node)
@@ -554,12 +586,12 @@ def run(chk):
     chk.rule("R03.6", "constructor normalisation and accessor are exact inverses")
     chk.rule("R03.7", "EOP record chosen by the instant")
     chk.rule("R03.8", "IERS day lookup and leap-second table")
-    r03_1(chk)
-    r03_2(chk)
-    r03_3(chk)
-    r03_4(chk)
-    r03_5(chk)
-    r03_6(chk)
-    r03_7(chk)
-    r03_8(chk)
+    chk.guard(r03_1, chk)
+    chk.guard(r03_2, chk)
+    chk.guard(r03_3, chk)
+    chk.guard(r03_4, chk)
+    chk.guard(r03_5, chk)
+    chk.guard(r03_6, chk)
+    chk.guard(r03_7, chk)
+    chk.guard(r03_8, chk)
     chk.assume("TT−TAI = 32.184 s, TAI−GPS = 19 s, TDB−TT series of the Astronomical Almanac (two terms)")
